@@ -3,6 +3,9 @@ package verifharness
 import (
 	"encoding/json"
 	"fmt"
+	"hash/adler32"
+	"hash/crc32"
+	"hash/fnv"
 	"sync"
 	"syscall"
 	"testing"
@@ -28,6 +31,58 @@ type LimCase struct {
 
 const limCleanupTick = int64(10 * time.Minute) // ratelimiter.go: cleanupTick
 
+// Client names.  Ids below 100 are plain; ids 100.. name address pairs chosen to be as confusable as distinct strings get:
+// pairs of IPv4 literals that collide under the 32-bit hashes a key-shortening change would reach for (FNV-1a, FNV-1,
+// CRC-32, Adler-32; found by a birthday search at start-up), a long common prefix, differing case, a trailing space.
+var limNames = map[int]string{}
+
+func init() {
+	type hf struct {
+		name string
+		f    func(string) uint32
+	}
+	hs := []hf{
+		{"fnv1a", func(s string) uint32 { h := fnv.New32a(); h.Write([]byte(s)); return h.Sum32() }},
+		{"fnv1", func(s string) uint32 { h := fnv.New32(); h.Write([]byte(s)); return h.Sum32() }},
+		{"crc32", func(s string) uint32 { return crc32.ChecksumIEEE([]byte(s)) }},
+		{"adler32", func(s string) uint32 { return adler32.Checksum([]byte(s)) }},
+	}
+	id := 100
+	for _, h := range hs {
+		seen := map[uint32]string{}
+		found := false
+		for a := 0; a < 256 && !found; a++ {
+			for b := 0; b < 256 && !found; b++ {
+				for c := 1; c < 255 && !found; c++ {
+					addr := fmt.Sprintf("10.%d.%d.%d", a, b, c)
+					k := h.f(addr)
+					if prev, ok := seen[k]; ok {
+						limNames[id], limNames[id+1] = prev, addr
+						found = true
+					}
+					seen[k] = addr
+				}
+			}
+		}
+		id += 2
+	}
+	limNames[id], limNames[id+1] = "2001:db8:0:0:0:0:0:1", "2001:db8:0:0:0:0:0:2" // long common prefix
+	id += 2
+	limNames[id], limNames[id+1] = "2001:db8::a", "2001:DB8::A"
+	id += 2
+	limNames[id], limNames[id+1] = "10.1.1.1", "10.1.1.1 "
+	limPairs = (id + 2 - 100) / 2
+}
+
+var limPairs int
+
+func limClient(c int) string {
+	if n, ok := limNames[c]; ok {
+		return n
+	}
+	return fmt.Sprintf("c%d", c)
+}
+
 func genLimCase(r *Rng, kind string) LimCase {
 	rates := []int64{1, 1000, int64(time.Millisecond), int64(time.Second), 7 * int64(time.Second), int64(time.Minute),
 		20 * int64(time.Minute), 30 * int64(time.Minute), 45 * int64(time.Minute), int64(time.Hour), 2 * int64(time.Hour)}
@@ -37,6 +92,11 @@ func genLimCase(r *Rng, kind string) LimCase {
 	}
 	nclients := r.Range(1, 4)
 	nops := r.Range(4, 40)
+	base := 0 // clients are base+1 .. base+nclients
+	if kind == "confusable" {
+		nclients = 2
+		base = 100 + 2*r.Intn(limPairs) - 1
+	}
 	rr := c.Rate
 	gaps := []int64{0, 1, rr - 1, rr, rr + 1, 2*rr - 1, 2 * rr, 3*rr + 1, int64(c.Max) * rr, int64(c.Max)*rr - 1, int64(c.Max+1) * rr,
 		limCleanupTick - 1, limCleanupTick, limCleanupTick + 1, int64(time.Hour) - 1, int64(time.Hour), int64(time.Hour) + 1,
@@ -44,9 +104,9 @@ func genLimCase(r *Rng, kind string) LimCase {
 	for i := 0; i < nops; i++ {
 		switch x := r.Intn(100); {
 		case x < 45:
-			c.Ops = append(c.Ops, LimOp{K: "A", C: r.Range(1, nclients)})
+			c.Ops = append(c.Ops, LimOp{K: "A", C: base + r.Range(1, nclients)})
 		case x < 65:
-			c.Ops = append(c.Ops, LimOp{K: "B", C: r.Range(1, nclients), N: r.Range(2, c.Max+3)})
+			c.Ops = append(c.Ops, LimOp{K: "B", C: base + r.Range(1, nclients), N: r.Range(2, c.Max+3)})
 		default:
 			d := r.PickI64(gaps)
 			if d < 0 {
@@ -87,6 +147,10 @@ func limCorpus() []LimCase {
 		{Max: 2, Rate: 20 * m, Ops: []LimOp{{K: "B", C: 1, N: 3}, {K: "B", C: 2, N: 2}, {K: "T", D: h + 11*m}, {K: "B", C: 1, N: 3}, {K: "A", C: 2}}},
 		// 64 simultaneous callers on one bucket
 		{Max: 5, Rate: s, Ops: []LimOp{{K: "B", C: 1, N: 64}, {K: "T", D: 2 * s}, {K: "B", C: 1, N: 64}}},
+		// isolation between confusable addresses: one spends its burst, the other is new
+		{Max: 2, Rate: h, Ops: []LimOp{{K: "B", C: 100, N: 4}, {K: "A", C: 101}, {K: "A", C: 101}, {K: "A", C: 101}}},
+		{Max: 1, Rate: h, Ops: []LimOp{{K: "A", C: 102}, {K: "A", C: 103}, {K: "A", C: 104}, {K: "A", C: 105}, {K: "A", C: 106}, {K: "A", C: 107}, {K: "A", C: 108}, {K: "A", C: 109},
+			{K: "A", C: 110}, {K: "A", C: 111}, {K: "A", C: 112}, {K: "A", C: 113}}},
 	}
 }
 
@@ -101,7 +165,7 @@ func runLimCase(c LimCase) (coq string, stats map[string]int) {
 	for _, op := range c.Ops {
 		switch op.K {
 		case "A":
-			ok := rl.Allow(fmt.Sprintf("c%d", op.C))
+			ok := rl.Allow(limClient(op.C))
 			ops = append(ops, "LAllow "+ZI(op.C))
 			obs = append(obs, B01(ok))
 			stats["allow"]++
@@ -113,7 +177,7 @@ func runLimCase(c LimCase) (coq string, stats map[string]int) {
 			res := make([]bool, op.N)
 			for i := 0; i < op.N; i++ {
 				wg.Add(1)
-				go func(i int) { defer wg.Done(); res[i] = rl.Allow(fmt.Sprintf("c%d", op.C)) }(i)
+				go func(i int) { defer wg.Done(); res[i] = rl.Allow(limClient(op.C)) }(i)
 			}
 			wg.Wait()
 			adm := 0
@@ -196,7 +260,9 @@ func TestLimiter(t *testing.T) {
 			root := NewRng(Seed())
 			for i := 0; i < n; i++ {
 				kind := "random"
-				if i%3 == 0 {
+				if i%10 == 7 {
+					kind = "confusable"
+				} else if i%3 == 0 {
 					kind = "small-rate"
 				}
 				emit(kind, genLimCase(root.Fork(uint64(i)), kind))
